@@ -37,6 +37,10 @@ STATIC_TREE = {
     "vs_reexport.py": "from vs_lib import lib_func, LibClass\nfrom vs_all import shown as shown_alias\n",
     "vs_pkg/__init__.py": "from .mod import pkg_func\n",
     "vs_pkg/mod.py": "def pkg_func():\n    return 'pkg'\n\n\ndef other_func():\n    return 'other'\n",
+    # a package whose __init__ re-exports through a relative star import (what a static reading of
+    # __init__.py finds and what the imported package object holds are not the same thing)
+    "vs_pkg2/__init__.py": "from .shapes import *\n",
+    "vs_pkg2/shapes.py": "def area(x):\n    return x * x\n\n\ndef perimeter(x):\n    return 4 * x\n",
     # mutual fallback: the last binding of `dumps` in each module is an import from the other
     "vs_fast.py": '"""Accelerated helpers, falling back to the pure python ones."""\ntry:\n    from _vs_speedups import dumps\nexcept ImportError:\n    from vs_pure import dumps\n',
     "vs_pure.py": '"""Pure python helpers; the accelerated versions are preferred when available."""\nimport json\n\n\ndef dumps(obj):\n    return json.dumps(obj, sort_keys=True)\n\n\ntry:\n    from vs_fast import dumps\nexcept ImportError:\n    pass\n',
@@ -404,7 +408,13 @@ def run_op(op: Dict[str, Any], lazies: Dict[int, Any]) -> Any:
     from pyrefact import processing
 
     kind = op["op"]
-    os.chdir(TREE_DIRS[op.get("tree", "A")])
+    os.chdir(op["tree_path"] if op.get("tree_path") else TREE_DIRS[op.get("tree", "A")])
+    if kind == "FILE":
+        # a call that changes the disk: format_file on a module of the run's private tree (not judged
+        # itself; what later calls see of it is)
+        target = Path(op["tree_path"]) / op["rel"]
+        changed = pyrefact.format_file(target)
+        return ["ok", [bool(changed), target.read_text()]]
     if kind == "FMT":
         return ["ok", pyrefact.format_code(
             op["x"], preserve=frozenset(op.get("preserve", ())), safe=op.get("safe", False),
@@ -654,6 +664,16 @@ def execute(case: Dict[str, Any]) -> Dict[str, Any]:
 
         lazies: Dict[int, Any] = {}
         ops = case["ops"]
+        private_dir = None
+        if case.get("private_tree"):
+            private_dir = C.SCRATCH_ROOT / "e2run" / f"{int(case.get('seed') or 0):016x}"
+            import shutil as _sh
+
+            _sh.rmtree(private_dir, ignore_errors=True)
+            for rel, text in case["private_tree"].items():
+                pth = private_dir / rel
+                pth.parent.mkdir(parents=True, exist_ok=True)
+                pth.write_text(text)
         for i, op in enumerate(ops):
             op["_i"] = i
         sys_path_before = list(sys.path)
@@ -665,6 +685,12 @@ def execute(case: Dict[str, Any]) -> Dict[str, Any]:
             obs.parsed_in_op = {}
             obs.abort = tuple(op["abort"]) if op.get("abort") else None
             obs.crossings = C.Counter()
+            if private_dir is not None and op.get("tree") == "P":
+                op = dict(op)
+                op["tree_path"] = str(private_dir)
+                # the disk is part of what a reference depends on: stamp its state into the (memo) key
+                op["disk"] = C.sha(sorted((str(p.relative_to(private_dir)), p.read_text()) for p in private_dir.rglob("*.py")))[:16]
+                ops[i] = op
             if op.get("x_from") is not None:  # REFMT / TWIN: input is an earlier output
                 prev = outputs.get(op["x_from"])
                 if not (isinstance(prev, list) and prev[0] == "ok" and isinstance(prev[1], str)):
@@ -804,6 +830,10 @@ def execute(case: Dict[str, Any]) -> Dict[str, Any]:
                 violations = []
     finally:
         server.close()
+        if case.get("private_tree"):
+            import shutil as _sh
+
+            _sh.rmtree(C.SCRATCH_ROOT / "e2run" / f"{int(case.get('seed') or 0):016x}", ignore_errors=True)
     if case.get("trees"):
         for v in violations:
             v["props"] = ["C18", "C05"]  # import normalisation against another on-disk layout, through history
@@ -1053,11 +1083,56 @@ def generate_blocks(rng: random.Random, index: int, of: int) -> Dict[str, Any]:
     return {"engine": "e2", "knobs": rng.choice(["default", "unbounded"]), "ops": ops}
 
 
+def generate_disk(rng: random.Random, profile: Dict[str, Any]) -> Dict[str, Any]:
+    """History with calls that change the disk: clients of a private project tree
+    are formatted, a module they import from is formatted *in place* by
+    format_file (it gains an import, loses unused code, ...), and the clients are
+    formatted again.  Every judged call is compared with a fresh process looking
+    at the same disk state."""
+    k = rng.randrange(1000)
+    geo, rep = f"vsd{k}_geometry", f"vsd{k}_report"
+    std = rng.choice(["math", "os", "json"])
+    use = {"math": "math.sqrt(x * x + y * y)", "os": "os.path.join(str(x), str(y))", "json": "json.dumps([x, y])"}[std]
+    tree = {
+        f"{geo}.py": f"def norm(x, y):\n    return {use}\n\n\ndef spare(x):\n    return x\n\n\nprint(norm(3, 4))\n",
+        f"{geo}_hub.py": f"from {geo} import norm\n",
+    }
+    clients = [
+        f"from {geo} import {std}, norm\n\nprint(norm(1, 2), {std}.__name__)\n",
+        f"from {geo} import *\n\nprint(norm(1, 2))\n",
+        f"from {geo}_hub import norm\n\nprint(norm(5, 6))\n",
+        f"from {geo} import norm, spare\n\nprint(norm(1, 2), spare(3))\n",
+    ]
+    ops: List[Dict[str, Any]] = []
+    for _ in range(rng.randint(2, 4)):
+        ops.append({"op": "FMT", "x": rng.choice(clients), "tree": "P"})
+    ops.insert(rng.randint(1, len(ops)), {"op": "FILE", "rel": f"{geo}.py", "tree": "P"})
+    for _ in range(rng.randint(1, 3)):
+        x = rng.choice(clients)
+        ops.append({"op": rng.choice(["FMT", "FMT", "RULE"]), "x": x, "tree": "P"})
+        if ops[-1]["op"] == "RULE":
+            ops[-1]["rule"] = rng.choice(["tracing.fix_reimported_names", "tracing.fix_starred_imports"])
+    return {"engine": "e2", "knobs": "default", "ops": ops, "private_tree": tree, "keep_going": False, "trees": True}
+
+
 def generate_trees(rng: random.Random, profile: Dict[str, Any]) -> Dict[str, Any]:
     """History over two project trees (same module names, other layout) in one
     process: clients of plain modules are formatted in tree A and tree B in drawn
     order; mostly *different* client texts per tree (nothing keyed by text can be
     stale then), sometimes the same text in both (known finding K5)."""
+    if rng.random() < 0.3:
+        # one tree only, clients of packages: importing a submodule makes the tool import the package into
+        # its own process (find_spec), and nothing later may depend on whether that has happened
+        pk = [c for c in gen.STATIC_TREE_CLIENTS if "vs_pkg" in c]
+        ops_p: List[Dict[str, Any]] = []
+        for _ in range(rng.randint(3, 7)):
+            x = rng.choice(pk)
+            if rng.random() < 0.3:
+                x = x + "\nprint('variant')\n"
+            ops_p.append({"op": rng.choice(["FMT", "FMT", "RULE"]), "x": x, "tree": "A"})
+            if ops_p[-1]["op"] == "RULE":
+                ops_p[-1]["rule"] = rng.choice(["tracing.fix_reimported_names", "tracing.fix_starred_imports"])
+        return {"engine": "e2", "knobs": "default", "ops": ops_p, "keep_going": False, "trees": True}
     clients = [c for c in gen.STATIC_TREE_CLIENTS if "vs_pkg" not in c]
     variants = []
     for c in clients:
@@ -1150,6 +1225,8 @@ def run_seed(seed: int, **profile) -> Dict[str, Any]:
         case = generate_chains(rng, profile)
     elif profile.get("blocks"):
         case = generate_blocks(rng, profile["index"], profile["of"])
+    elif profile.get("disk"):
+        case = generate_disk(rng, profile)
     elif profile.get("trees"):
         case = generate_trees(rng, profile)
     elif profile.get("sweep"):
